@@ -252,7 +252,7 @@ def run(res):
         s_, ps = k * dd // n, ((k * dd) % n) * PS // n
         jobs.append((k, n, dd, [0] + civil(s_) + [ps]))
     bad, stop = [], threading.Event()
-    reps = 4000 if res.tier == "quick" else 60000
+    reps = 60000 if res.tier == "quick" else 400000
 
     def worker(job):
         k, n, dd, spec = job
